@@ -1,6 +1,6 @@
 /-
   C05 — candidate clusters group protoclusters by the documented kinds.
-  Property theorems only; helper lemmas in ASV/Proofs/{MergeSets,Candidates,Coverage,Members,SpecBridge,NoDup,Passes,Total,HybridWindow,PermInvariant,RingFacts,RingInterleaved}.lean.
+  Property theorems only; helper lemmas in ASV/Proofs/{MergeSets,Candidates,Coverage,Members,SpecBridge,NoDup,Passes,Total,HybridWindow,PermInvariant,RingFacts,RingInterleaved,NoDupRing,RingHybrid}.lean.
 
   Model: ASV/Model/Candidates.lean (formation.py after the repairs D16, D19, D501–D507).
   `formation ps wrap` is `create_candidates_from_protoclusters(protoclusters, circular_wrap_point)`;
@@ -8,7 +8,7 @@
   only hypothesis on the input is `ps.Nodup` (no protocluster object supplied twice), and only where
   counting is involved.  Every theorem holds for all inputs, linear and circular, of any size.
 -/
-import ASV.Proofs.RingInterleaved
+import ASV.Proofs.RingHybrid
 namespace ASV.C05
 open ASV ASV.CC ASV.CC.Spec
 
@@ -131,11 +131,23 @@ theorem no_duplicate_candidates_partial (ps : List Proto) (cs : List Cand) (hn :
   formation_noDuplicates_linear hn hlin h
 
 /-- Full statement (any record).  On a circular record the table key of a *replacement* candidate
-    (promotion) is the key of the group that triggered it, and that the merged span has the same two
-    ends needs `connect_locations` on a ring (C04: correspondence only); the executable `noDuplicates`
-    is evaluated on every implementation output instead. -/
+    (promotion) is the key of the group that triggered it; that the merged span has the same two ends
+    is proved below when all protoclusters fit into less than half the record
+    (`no_duplicate_candidates_ring_partial`); for larger spreads `connect_locations` is not the shortest
+    arc and the executable `noDuplicates` is evaluated on every implementation output instead. -/
 def NoDuplicateCandidates : Prop :=
   ∀ (ps : List Proto) (wrap : Option Int) (cs : List Cand), ps.Nodup → formation ps wrap = .ok cs → noDuplicates cs = true
+
+/-- Circular record of length `L`, H: every protocluster's extent is a single part or an
+    origin-spanning span of the record, and **one span shorter than half the record covers all
+    protoclusters** (`HalfRing`).  Then every candidate's span is the unique shortest arc covering its
+    members (C04 `connect_ring_shortest`), promotion keeps the table key, and no two candidates have the
+    same coordinates and members. -/
+theorem no_duplicate_candidates_ring_partial (L : Int) (ps : List Proto) (cs : List Cand) (hn : ps.Nodup)
+    (hL : 0 < L) (hv : ∀ p, p ∈ ps → RingInStrict L p.loc)
+    (hhalf : ∃ c, areaWF L L c = true ∧ 2 * c.len < L ∧ ∀ p, p ∈ ps → ∀ i, p.loc.mem i = true → c.mem i = true)
+    (h : formation ps (some L) = .ok cs) : noDuplicates cs = true :=
+  formation_noDuplicates_ring hn ⟨hL, hv, hhalf⟩ h
 
 /-! ### 5. the kinds: what each pass groups -/
 
@@ -160,8 +172,9 @@ theorem hybrid_groups_are_sharing_classes (clusters : List Proto) (wrap : Option
 
 /-- Full statement (any record): a hybrid group is a sharing class plus exactly the unshared
     protoclusters whose core lies inside the class's connected core.  Proved below for linear records
-    (H: `wrap = none`, cores non-empty single parts inside their extents); on a circular record the
-    window works on `core_start`, which is not the sort key for origin-spanning cores — correspondence. -/
+    (H: `wrap = none`, cores non-empty single parts inside their extents) and for circular records when the
+    unshared protoclusters have single-part cores (`hybrid_groups_exact_ring_partial`); with an unshared
+    origin-spanning core the window works on `core_start`, which is not the sort key — correspondence. -/
 def HybridGroupsExact : Prop :=
   ∀ (clusters : List Proto) (wrap : Option Int) (hg : List (List Proto)) (un : List Proto), clusters.Nodup →
     findHybrids clusters wrap = .ok (hg, un) →
@@ -185,6 +198,22 @@ theorem hybrid_groups_exact_partial (clusters : List Proto) (hg : List (List Pro
         ∀ p, p ∈ clusters → (∀ q, q ∈ clusters → q ≠ p → shares p q = false) →
           (p ∈ g ↔ locationContainsOther core p.core = true) :=
   findHybrids_complete_linear h hn hv
+
+/-- Chemical hybrids on a circular record of length `L`, exact, H: the protoclusters that share a gene
+    with nobody have single-part cores inside their extents (`hv2`; the members of the hybrid groups
+    may have origin-spanning cores, and a group's combined core may span the origin — then the scan
+    starts at the front, never breaks, and is followed by the second scan). -/
+theorem hybrid_groups_exact_ring_partial (L : Int) (hL : 0 < L) (clusters : List Proto) (hg : List (List Proto))
+    (un : List Proto) (hn : clusters.Nodup) (hv1 : ∀ p, p ∈ clusters → RingIn L p.core)
+    (hv2 : ∀ p, p ∈ clusters → (∀ q, q ∈ clusters → q ≠ p → shares p q = false) →
+      ∃ r, p.core = .simple r ∧ r.lo < r.hi ∧ p.loc.start ≤ r.lo)
+    (h : findHybrids clusters (some L) = .ok (hg, un)) :
+    ∀ g, g ∈ hg → ∃ (m : List Proto) (core : Loc), (∀ x, x ∈ m → x ∈ g) ∧ 2 ≤ m.length ∧
+        (∀ a b, a ∈ m → b ∈ m → Linked (shareGroups clusters) a b) ∧
+        connect (m.map (·.core)) (some L) = .ok core ∧
+        ∀ p, p ∈ clusters → (∀ q, q ∈ clusters → q ≠ p → shares p q = false) →
+          (p ∈ g ↔ locationContainsOther core p.core = true) :=
+  findHybrids_complete_ring hL h hn hv1 hv2
 
 /-- Interleaved, completeness (any record): two protoclusters linked by a chain of units (hybrid
     candidates with their combined cores `cc`, unabsorbed protoclusters) with overlapping cores are in
@@ -309,6 +338,65 @@ example :
                         ⟨0, .simple ⟨80, 130, .fwd⟩, .simple ⟨90, 120, .fwd⟩, [1], "c"⟩,
                         ⟨1, .simple ⟨80, 130, .fwd⟩, .simple ⟨90, 120, .fwd⟩, [1], "a"⟩] none) =
       some [(.hybrid, [1, 2, 0])] := by decide +kernel
+
+/-- circular record of length 12: the hybrid {0, 2} has a combined core spanning the origin although
+    no member's core does (D505's layout); protocluster 1 overlaps it, the origin-crossing step groups
+    them — the situation of `interleaved_groups_are_classes_ring` -/
+example :
+    summary (formation [⟨0, .simple ⟨0, 3, .fwd⟩, .simple ⟨0, 3, .fwd⟩, [1], "a"⟩,
+                        ⟨1, .simple ⟨2, 5, .fwd⟩, .simple ⟨2, 5, .fwd⟩, [], "b"⟩,
+                        ⟨2, .simple ⟨10, 12, .fwd⟩, .simple ⟨10, 12, .fwd⟩, [1], "c"⟩,
+                        ⟨3, .simple ⟨6, 8, .fwd⟩, .simple ⟨6, 8, .fwd⟩, [], "d"⟩] (some 12)) =
+    some [(.interleaved, [0, 1, 2]), (.hybrid, [0, 2]), (.single, [3])] := by decide +kernel
+
+/-- circular record of length 100: the hybrid {0, 1} spans the origin, the unshared protoclusters 2 and 3
+    lie inside its combined core on either side of the origin and are picked up by the two scans, 4 is
+    not; the hypotheses of `hybrid_groups_exact_ring_partial` and of `no_duplicate_candidates_ring_partial`
+    (all extents inside the span `[90, 100) + [0, 9)`… here even `[40, 50)` is outside, so only the
+    former) hold for this input -/
+example :
+    let ps : List Proto := [⟨0, .simple ⟨90, 96, .fwd⟩, .simple ⟨90, 96, .fwd⟩, [1], "a"⟩,
+                            ⟨1, .simple ⟨4, 9, .fwd⟩, .simple ⟨4, 9, .fwd⟩, [1], "b"⟩,
+                            ⟨2, .simple ⟨97, 99, .fwd⟩, .simple ⟨97, 99, .fwd⟩, [], "c"⟩,
+                            ⟨3, .simple ⟨1, 3, .fwd⟩, .simple ⟨1, 3, .fwd⟩, [], "d"⟩,
+                            ⟨4, .simple ⟨40, 50, .fwd⟩, .simple ⟨40, 50, .fwd⟩, [], "e"⟩]
+    summary (formation ps (some 100)) = some [(.hybrid, [3, 1, 0, 2]), (.single, [4])] ∧
+    (∀ p, p ∈ ps → RingIn 100 p.core) ∧
+    (∀ p, p ∈ ps → ∃ r, p.core = .simple r ∧ r.lo < r.hi ∧ p.loc.start ≤ r.lo) := by
+  intro ps
+  refine ⟨by decide +kernel, ?_, ?_⟩
+  · intro p hp
+    simp only [ps, List.mem_cons, List.mem_nil_iff, or_false] at hp
+    rcases hp with rfl | rfl | rfl | rfl | rfl <;>
+      exact RingInStrict.ringIn (Or.inl ⟨_, rfl, by decide, by decide, by decide⟩)
+  · intro p hp
+    simp only [ps, List.mem_cons, List.mem_nil_iff, or_false] at hp
+    rcases hp with rfl | rfl | rfl | rfl | rfl <;> exact ⟨_, rfl, by decide, by decide⟩
+
+/-- a circular record whose protoclusters fit into less than half of it (`[88, 100) + [0, 12)` of 100):
+    the hypotheses of `no_duplicate_candidates_ring_partial` -/
+example :
+    let ps : List Proto := [⟨0, .compound [⟨95, 100, .fwd⟩, ⟨0, 5, .fwd⟩], .compound [⟨97, 100, .fwd⟩, ⟨0, 2, .fwd⟩], [], "a"⟩,
+                            ⟨1, .simple ⟨3, 12, .fwd⟩, .simple ⟨6, 9, .fwd⟩, [], "b"⟩,
+                            ⟨2, .simple ⟨88, 96, .fwd⟩, .simple ⟨90, 93, .fwd⟩, [], "c"⟩]
+    summary (formation ps (some 100)) = some [(.neighbouring, [0, 1, 2]), (.single, [0]), (.single, [1]), (.single, [2])] ∧
+    (∀ p, p ∈ ps → RingInStrict 100 p.loc) ∧
+    (∃ c, areaWF 100 100 c = true ∧ 2 * c.len < 100 ∧ ∀ p, p ∈ ps → ∀ i, p.loc.mem i = true → c.mem i = true) := by
+  intro ps
+  refine ⟨by decide +kernel, ?_, ⟨.compound [⟨88, 100, .fwd⟩, ⟨0, 12, .fwd⟩], by decide, by decide, ?_⟩⟩
+  · intro p hp
+    simp only [ps, List.mem_cons, List.mem_nil_iff, or_false] at hp
+    rcases hp with rfl | rfl | rfl
+    · exact Or.inr (Or.inl ⟨95, 5, .fwd, by decide, rfl, by decide, by decide, by decide⟩)
+    · exact Or.inl ⟨_, rfl, by decide, by decide, by decide⟩
+    · exact Or.inl ⟨_, rfl, by decide, by decide, by decide⟩
+  · intro p hp i hi
+    simp only [ps, List.mem_cons, List.mem_nil_iff, or_false] at hp
+    rw [mem_two]
+    rcases hp with rfl | rfl | rfl
+    · rw [mem_two] at hi; simp only at hi ⊢; omega
+    · rw [mem_simple] at hi; simp only at hi ⊢; omega
+    · rw [mem_simple] at hi; simp only at hi ⊢; omega
 
 /-- the hypotheses of the linear theorems (`formation_succeeds_on_line`, `hybrid_groups_exact_partial`,
     `no_duplicate_candidates_partial`) hold for that input -/
